@@ -147,7 +147,9 @@ func getFieldDecoder(pInfo parentInfos, field reflect.StructField, index int, by
 	// 		string
 	// }
 	if field.Type.Kind() != reflect.Struct && field.Anonymous {
-		return nil, false, nil
+		// (no decoder, but what the member holds may carry validation expressions)
+		_, tagged := field.Tag.Lookup(config.ValidateTag)
+		return nil, tagged || carriesValidateTag(field.Type, config.ValidateTag, nil), nil
 	}
 
 	// JSONName is like 'a.b.c' for 'required validate'
